@@ -643,8 +643,8 @@ def main(ctx):
                        "a GNU ld output compared with itself yields the documented 'A .layout file is required' entry only"]
     build.ensure("hook")
     tools.wild()
-    nq = ctx.pick(6, 60)
-    nc = ctx.pick(36, 700)
+    nq = ctx.pick(6, 30)
+    nc = ctx.pick(36, 450)
     jobs = ([("p", p) for p in pinned_cases()] + [("pq", n) for n in list(PINNED_QUIET) + list(PINNED_QUIET_ASM)] + [("q", j) for j in range(nq)]
             + [("c", i) for i in range(nc)])
     if ctx.replay is not None:
